@@ -86,6 +86,23 @@ Theorem C13_flush_at_shutdown : forall s : store bytes,
   step_alive true s EClose = (s, [Flush (doc s)], RClose, false).
 Proof. exact (@close_flushes bytes). Qed.
 
+(* ---- CONCURRENT CALLERS.  Each call's install and its Cache.Write happen inside ONE critical
+   section of the store's mutex (store.go: lookup 400-414, applyUpdates 606-639, shutdown 585-590),
+   so every concurrent execution is a run of locked steps in the order in which the lock was
+   taken, and the cache receives the documents in that same order.  Along ANY such run: every
+   document written is the document of the state right after the step that wrote it (writes are
+   totally ordered with the installs; no write can carry an older state than an earlier write),
+   and the LAST document written differs from the final state in access stamps only - in
+   particular it holds every secret installed by any of the calls. *)
+Theorem C13_writes_are_state_docs : forall (es : list (ev bytes)) (s : store bytes) alive, Inv s ->
+  Forall (fun x : store bytes * list (effect bytes) => snd x = [] \/ snd x = [Flush (doc (fst x))]) (run_trace s alive es).
+Proof. exact (@writes_are_state_docs bytes). Qed.
+
+Theorem C13_last_write_is_final_state : forall (es : list (ev bytes)) (s : store bytes) alive d0, Inv s ->
+  nostamp d0 = nostamp (doc s) ->
+  nostamp (List.last (writes_of (run_trace s alive es)) d0) = nostamp (doc (final_of s (run_trace s alive es))).
+Proof. exact (@last_write_is_final_state bytes). Qed.
+
 (* ---- ALL HISTORIES.  With a cache whose writes succeed, after every sequence of lookups, reads,
    polls and Close whose inputs fit the Go field types, the cache content is the document of a
    good state that differs from the CURRENT state in access stamps only. *)
@@ -165,6 +182,8 @@ Print Assumptions C13_flush_after_init.
 Print Assumptions C13_flush_after_lookup.
 Print Assumptions C13_flush_after_poll.
 Print Assumptions C13_flush_at_shutdown.
+Print Assumptions C13_writes_are_state_docs.
+Print Assumptions C13_last_write_is_final_state.
 Print Assumptions C13_cache_tracks_state.
 Print Assumptions C13_restart_same.
 Print Assumptions C13_restart_after_history.
@@ -198,6 +217,18 @@ Example ex_restart :
              (new_store (decode_cache (fun s => Some s) (encode_cache (fun b => b) (doc ex_store))) [[97]]%N false 0 (fun _ => None) 5)
   = Some ([Some (3, [1; 2]); Some (1, []); None]%N, [], []).
 Proof. vm_compute. reflexivity. Qed.
+
+(* two lookups of different names: in either serialization the last document holds BOTH names;
+   "stale document last" (the first lookup's document after the second's) is the write sequence of NO run *)
+Definition ex_l1 : ev bytes := ELookup [120]%N (Some (1%N, [7%N])) 9%Z.
+Definition ex_l2 : ev bytes := ELookup [121]%N (Some (2%N, [8%N])) 9%Z.
+Example ex_two_lookups :
+  let w12 := writes_of (run_trace ex_store true [ex_l1; ex_l2]) in
+  let w21 := writes_of (run_trace ex_store true [ex_l2; ex_l1]) in
+  map (@fst name _) (List.last w12 []) = [[97]; [98; 47; 99]; [120]; [121]]%N
+  /\ List.last w12 [] = List.last w21 []
+  /\ w12 <> rev w21 /\ w21 <> rev w12 /\ rev w12 <> w21.
+Proof. vm_compute. repeat split; discriminate. Qed.
 
 (* the file client skips the empty-valued entry and serves the other *)
 Example ex_fileclient :
